@@ -23,7 +23,7 @@ def gen_case(rng):
         allow = {"plain": False, "mixed": rng.random() < 0.4, "optin": rng.random() < 0.8}[profile]
         nh = rng.choice([1, 1, 2, 3])
         hs = [{"plain": False, "mixed": rng.random() < 0.4, "optin": rng.random() < 0.8}[profile] for _ in range(nh)]
-        tracers.append({"allow_re": allow, "propagate": rng.random() < 0.25, "handlers": hs})
+        tracers.append({"allow_re": allow, "propagate": rng.random() < 0.25, "handlers": hs, "multi": rng.random() < 0.5})
     ids = [0]
     budget = [rng.choice([4, 8, 14])]
 
@@ -53,7 +53,7 @@ def gen_case(rng):
         return {"k": "em", "tracers": ts}
 
     tops = [em(0) for _ in range(rng.choice([1, 2, 3]))]
-    return {"tracers": tracers, "tops": tops}
+    return {"tracers": tracers, "tops": tops, "worker": rng.random() < 0.3}
 
 
 def count_ems(n):
@@ -69,7 +69,7 @@ def coq_node(n, tracers):
             hh = "; ".join("Node (TgHandler %d%%N %s %s %s) [%s]" % (
                 h["id"], b(hre), b(h["raises"]), ["CContinue", "CSkip", "CSkipAll"][h["ctl"]],
                 "; ".join(coq_node(a, tracers) for a in h["acts"])) for hre, h in zip(t["handlers"], hs))
-            ts.append("Node (TgTracer %s %s false) [%s]" % (b(t["allow_re"]), b(t["propagate"]), hh))
+            ts.append("Node (TgTracer %s %s false %s) [%s]" % (b(t["allow_re"]), b(t["propagate"]), b(t.get("multi", False)), hh))
         return "Node TgEm [%s]" % "; ".join(ts)
     tag = {"region": "TgRegion", "catch": "TgCatch"}[n["k"]]
     return "Node %s [%s]" % (tag, "; ".join(coq_node(a, tracers) for a in n["acts"]))
@@ -83,9 +83,9 @@ def coq_cases_file(cases):
     L = ["From Coq Require Import List NArith Bool.", "Import ListNotations.", "From PyccoloV Require Import model.Reent.",
          "Fixpoint trace (ns : list node) (s : st) : list (bool * (bool * bool)) * st :=",
          "  match ns with [] => ([], s) | n :: ns' => let '(r, s1) := run n s in let '(rs, s2) := trace ns' s1 in ((r, (fA s1, fR s1)) :: rs, s2) end.",
-         "Definition one (ns : list node) := let '(rs, s) := trace ns st0 in (rs, map (fun e => (fst (fst e), snd e)) (log s), map (fun e => snd (fst e)) (log s))."]
+         "Definition one (worker : bool) (ns : list node) := let '(rs, s) := trace ns (if worker then st0_worker else st0) in (rs, map (fun e => (fst (fst e), snd e)) (log s), map (fun e => snd (fst e)) (log s))."]
     for c in cases:
-        L.append("Eval vm_compute in one [%s]." % "; ".join(coq_node(t, c["tracers"]) for t in c["tops"]))
+        L.append("Eval vm_compute in one %s [%s]." % (b(c.get("worker", False)), "; ".join(coq_node(t, c["tracers"]) for t in c["tops"])))
     return "\n".join(L) + "\n"
 
 
@@ -96,15 +96,20 @@ def run_impl(cases):
     return res
 
 
+multi = {}
+
+
 def opted_map(case):
     """occurrence id -> (inside a region opened by a running handler, tracer allows re-entrant events, handler registered reentrant)"""
     m = {}
+    multi.clear()
 
     def walk(n, in_region):
         if n["k"] == "em":
             for t, hs in zip(case["tracers"], n["tracers"]):
                 for hre, h in zip(t["handlers"], hs):
                     m[h["id"]] = (in_region, bool(t["allow_re"]), bool(hre))
+                    multi[h["id"]] = bool(t.get("multi", False))
                     for a in h["acts"]:
                         walk(a, in_region)
         else:
@@ -123,6 +128,9 @@ def oracle_case(case, im):
         return {"what": "harness crashed: " + im["crash"], "tb": im.get("tb")}
     om = opted_map(case)
     for d, hid in im["log"]:
+        if case.get("worker") and not multi[hid]:
+            return {"what": "handler occurrence %d of a tracer that does not allow multiple threads was invoked on a worker thread" % hid,
+                    "observed_log": im["log"]}
         if d >= 1 and not any(om[hid]):
             return {"what": "ordinary handler (occurrence %d: no region around it, tracer and handler not reentrant) invoked while "
                             "%d handler(s) already running" % (hid, d), "observed_log": im["log"]}
